@@ -14,11 +14,11 @@ import (
 
 type intrinsic func(c *Ctx, fr *Frame, fn *ssa.Function, args []Value) Value
 
-var intrinsics map[string]intrinsic
+var intrinsics = map[string]intrinsic{}
 var pureIntrinsics = map[string]bool{}
 
 func init() {
-	intrinsics = map[string]intrinsic{
+	base := map[string]intrinsic{
 		"internal/bytealg.IndexByteString": inIndexByteString,
 		"internal/bytealg.IndexByte":       inIndexByte,
 		"internal/bytealg.IndexString":     inIndexString,
@@ -92,7 +92,10 @@ func init() {
 		"(*sync.WaitGroup).Wait":           inWGWait,
 		"sort.Sort":                        nil, // interpreted
 	}
-	delete(intrinsics, "sort.Sort")
+	delete(base, "sort.Sort")
+	for k, v := range base {
+		intrinsics[k] = v
+	}
 	for _, n := range []string{
 		"internal/bytealg.IndexByteString", "internal/bytealg.IndexString", "internal/bytealg.CountString",
 		"strings.Index", "strings.IndexByte", "strings.Contains", "strings.LastIndex", "internal/stringslite.Index",
@@ -872,3 +875,36 @@ func (c *Ctx) deepEq(fr *Frame, x, y Value, depth int) *Term {
 	}
 	panic(unsupported(fmt.Sprintf("DeepEqual on %T", x)))
 }
+
+// bytes.Repeat(b, count) with a symbolic count: a slice of symbolic length whose physical
+// contents repeat b (no case split on the count).
+func inBytesRepeat(c *Ctx, fr *Frame, fn *ssa.Function, a []Value) Value {
+	tb := c.tb
+	b := c.concSliceLen(fr, a[0].(Slice))
+	count := a[1].(*Term)
+	c.obligation(fr, tb.Bin("bvslt", count, tb.Int(0, 64)), "panic:explicit", "bytes: negative Repeat count")
+	l := int(b.n.cval)
+	if l == 0 {
+		return Slice{arr: &Array{}, n: tb.Int(0, 64)}
+	}
+	var phys int
+	if count.isC {
+		phys = int(count.cval) * l
+		if phys > c.w.cfg.MaxConcreteAlloc {
+			c.incomplete("bytes.Repeat result exceeds engine bound")
+			panic(pathEnd{"alloc too large"})
+		}
+	} else {
+		phys = c.w.cfg.MaxSymAlloc / l * l
+		c.assume(fr, tb.Bin("bvule", count, tb.Int(int64(phys/l), 64)), "Repeat count within engine bound")
+	}
+	n := tb.Bin("bvmul", count, tb.Int(int64(l), 64))
+	c.allocHook(fr, n, 1)
+	arr := &Array{elems: make([]Value, phys)}
+	for i := range arr.elems {
+		arr.elems[i] = b.arr.elems[b.off+i%l]
+	}
+	return Slice{arr: arr, n: n, cap: phys}
+}
+
+func init() { intrinsics["bytes.Repeat"] = inBytesRepeat }
